@@ -30,7 +30,9 @@ class TaskManager:
 
     def cancel_tasks(self) -> bool:
         """Cancel all tasks."""
-        return all(task.cancel() for task in self._tasks)
+        # Don't short-circuit: a task that is already done, but not yet
+        # discarded, must not prevent cancellation of the remaining ones.
+        return all([task.cancel() for task in self._tasks])
 
     async def wait_until_done(self, return_exceptions: bool = True) -> None:
         """Wait for all tasks to complete."""
